@@ -30,6 +30,12 @@ Occ(p, t) ==
 \* occurrences whose start position is < bound
 OccBefore(p, t, bound) == SelectSeq(Occ(p, t), LAMBDA i : i < bound)
 
+\* closed form for the comb family (used for texts of 10^6 symbols, logged as parameters only):
+\* text = (a^(L-1) b)^r, pattern = a^m b with m < L: one occurrence per period, at (k-1)*L + L-1-m
+CombText(L, r, a, b) == [i \in 1..(L * r) |-> IF i % L = 0 THEN b ELSE a]
+CombPattern(m, a, b) == [i \in 1..(m + 1) |-> IF i = m + 1 THEN b ELSE a]
+CombOcc(L, r, m) == [k \in 1..r |-> (k - 1) * L + L - 1 - m]
+
 Algos == {"shiftand", "bndm", "bom", "horspool", "kmp"}
 BitParallel(a) == a \in {"shiftand", "bndm"}
 
